@@ -1,6 +1,6 @@
 --------------------------- MODULE MC_Registries ---------------------------
 (***************************************************************************)
-(* Implementation-shaped model of the six RWA registries of property C20,  *)
+(* Implementation-shaped model of the seven RWA registries of property C20,*)
 (* checked exhaustively by TLC against the monitors of Registries.tla and  *)
 (* used as generator of the behaviours replayed on the real code.          *)
 (*                                                                         *)
@@ -14,6 +14,8 @@
 (*  docs    Index(name), Bucket(n) : Vec<(name, doc)>, Count; swap-remove  *)
 (*  irs     Identity(a), IdentityProfile(a), RecoveredTo(a)                *)
 (*  modules HookModules(h) : Vec (order-preserving removal)                *)
+(*  claims  Claim(id), ClaimsByTopic(t) : Vec<id>, id = hash(issuer, topic) *)
+(*          (order-preserving removal; an emptied list is a removed entry) *)
 (* Every entry point is a pure function  Impl(st, o) = [ok, st]  with the  *)
 (* code's checks; a refused call leaves `st` (host rollback).              *)
 (***************************************************************************)
@@ -26,6 +28,7 @@ CONSTANTS Fls,                       \* flavours explored
           DNS, DU, DH, DTS,          \* docs: names, uris, hashes, timestamps
           IAS, IID, ITY, IC, ICn,    \* irs: accounts, identities, types, countries, longest country list
           MHS, MMS,                  \* modules: hooks, modules
+          CTP, CIP, CDP, CSch,       \* claims: topics, issuers, data tags (also uri and signature tags), schemes
           BS,                        \* scaled bucket size (binder and docs)
           LimKpt, LimRpk, LimTopics, LimIssuers, LimTokens, LimBatch, LimDocs, LimCountries, LimModules,
           BUG,                       \* "none", or a defect re-introduced (vacuity guards):
@@ -36,7 +39,10 @@ CONSTANTS Fls,                       \* flavours explored
                                      \*  "docs_stale_index"   remove_document forgets the moved document's index
                                      \*  "irs_rereg"          add_identity does not look at the recovery link
                                      \*  "modules_cap_gt"     add_module_to tests len > limit
-          DpKeys, DpCti, DpBinder, DpDocs, DpIrs, DpModules,   \* bound on the number of calls, per flavour
+                                     \*  "claims_dup_index"   add_claim pushes the id to ClaimsByTopic on an overwrite too
+                                     \*  "claims_stale_index" remove_claim leaves the id in ClaimsByTopic
+                                     \*  "claims_topic_blind" generate_claim_id ignores the topic
+          DpKeys, DpCti, DpBinder, DpDocs, DpIrs, DpModules, DpClaims,   \* bound on the number of calls, per flavour
           EmitEvery
 
 VARIABLES fl, st, g, viol, hist
@@ -74,6 +80,7 @@ Lim(f) ==
     [] f = "docs"    -> [max |-> LimDocs, bucket |-> BS]
     [] f = "irs"     -> [countries |-> LimCountries]
     [] f = "modules" -> [modules |-> LimModules]
+    [] f = "claims"  -> [none |-> 0]
 
 (* keys: claim_issuer/storage.rs allow_key, remove_key ---------------------------------*)
 
@@ -357,26 +364,76 @@ ObsModules(s) ==
 
 OpsModules == {Mk(k, h, x, None, <<>>, 0) : k \in {"add_module", "remove_module"}, h \in MHS, x \in MMS}
 
-(* the six registries behind one interface ------------------------------------------------------------------*)
+(* claims: identity_claims/storage.rs add_claim, remove_claim ------------------------------------------------*)
+CPairs == SeqOf(CTP \X CIP)                       \* the order in which the harness probes (topic, issuer)
+CT0 == CHOOSE t \in CTP : TRUE
+IdOf(t, i) == IF BUG = "claims_topic_blind" THEN Cid(CT0, i) ELSE Cid(t, i)      \* generate_claim_id
+CIds == {Cid(t, i) : t \in CTP, i \in CIP}
+NoClaim == [ok |-> FALSE, topic |-> None, issuer |-> None, data |-> None, scheme |-> 0, uri |-> None, sig |-> None]
+
+InitClaims == [cl |-> [id \in CIds |-> NoClaim], idx |-> [t \in CTP |-> <<>>]]
+
+\* add_claim: the issuer contract is asked first (it traps on "add_invalid"); `ret` is the id returned
+ImplClaims(s, o) ==
+  LET id == IdOf(o.a, o.b) IN
+  CASE o.op = "add_claim" ->
+         LET new == ~s.cl[id].ok \/ BUG = "claims_dup_index"
+             c   == [ok |-> TRUE, topic |-> o.a, issuer |-> o.b, data |-> o.c, scheme |-> o.n,
+                     uri |-> o.xs[1], sig |-> o.xs[2]]
+         IN [ok |-> TRUE, ret |-> id,
+             st |-> [cl  |-> [s.cl EXCEPT ![id] = c],
+                     idx |-> IF new THEN [s.idx EXCEPT ![o.a] = Append(@, id)] ELSE s.idx]]
+    [] o.op = "add_invalid" -> [ok |-> FALSE, ret |-> None, st |-> s]
+    [] o.op = "remove_claim" ->
+         LET ok == s.cl[id].ok
+             t  == s.cl[id].topic                  \* the topic recorded in the claim
+         IN [ok |-> ok, ret |-> None,
+             st |-> IF ~ok THEN s
+                    ELSE [cl  |-> [s.cl EXCEPT ![id] = NoClaim],
+                          idx |-> IF BUG = "claims_stale_index" THEN s.idx
+                                  ELSE [s.idx EXCEPT ![t] = RemFirst(@, id)]]]
+
+ObsClaims(s) ==
+  [full  |-> TRUE,
+   claim |-> [j \in DOMAIN CPairs |->
+                LET t == CPairs[j][1]  i == CPairs[j][2]  c == s.cl[IdOf(t, i)] IN
+                [t |-> t, i |-> i, id |-> IdOf(t, i), ok |-> c.ok, topic |-> c.topic, issuer |-> c.issuer,
+                 data |-> c.data, scheme |-> c.scheme, uri |-> c.uri, sig |-> c.sig]],
+   byt   |-> s.idx]
+
+\* the rejecting issuer is tried with one payload only
+CD0 == CHOOSE d \in CDP : TRUE
+CS0 == CHOOSE n \in CSch : TRUE
+OpsClaims ==
+  {Mk("add_claim", t, i, d, <<d, d>>, n) : t \in CTP, i \in CIP, d \in CDP, n \in CSch}
+  \cup {Mk("add_invalid", t, i, CD0, <<CD0, CD0>>, CS0) : t \in CTP, i \in CIP}
+  \cup {Mk("remove_claim", t, i, None, <<>>, 0) : t \in CTP, i \in CIP}
+
+(* the seven registries behind one interface ------------------------------------------------------------------*)
 InitSt(f) ==
   CASE f = "keys" -> InitKeys [] f = "cti" -> InitCti [] f = "binder" -> InitBinder
     [] f = "docs" -> InitDocs [] f = "irs" -> InitIrs [] f = "modules" -> InitModules
+    [] f = "claims" -> InitClaims
 
 Impl(f, s, o) ==
   CASE f = "keys" -> ImplKeys(s, o) [] f = "cti" -> ImplCti(s, o) [] f = "binder" -> ImplBinder(s, o)
     [] f = "docs" -> ImplDocs(s, o) [] f = "irs" -> ImplIrs(s, o) [] f = "modules" -> ImplModules(s, o)
+    [] f = "claims" -> ImplClaims(s, o)
 
 \* what the public getters answer
 Obs(f, s) ==
   CASE f = "keys" -> ObsKeys(s) [] f = "cti" -> ObsCti(s) [] f = "binder" -> ObsBinder(s)
     [] f = "docs" -> ObsDocs(s) [] f = "irs" -> ObsIrs(s) [] f = "modules" -> ObsModules(s)
+    [] f = "claims" -> ObsClaims(s)
 
 Ops(f) ==
   CASE f = "keys" -> OpsKeys [] f = "cti" -> OpsCti [] f = "binder" -> OpsBinder
     [] f = "docs" -> OpsDocs [] f = "irs" -> OpsIrs [] f = "modules" -> OpsModules
+    [] f = "claims" -> OpsClaims
 
 Depth == CASE fl = "keys" -> DpKeys [] fl = "cti" -> DpCti [] fl = "binder" -> DpBinder
            [] fl = "docs" -> DpDocs [] fl = "irs" -> DpIrs [] fl = "modules" -> DpModules
+           [] fl = "claims" -> DpClaims
 
 Init == /\ fl \in Fls
         /\ st = InitSt(fl)
@@ -385,7 +442,8 @@ Init == /\ fl \in Fls
 
 Step(o) ==
   LET r  == Impl(fl, st, o)
-      ev == [op |-> o, res |-> IF r.ok THEN "ok" ELSE "fail", obs |-> Obs(fl, r.st)]
+      ev == [op |-> o, res |-> IF r.ok THEN "ok" ELSE "fail",
+             ret |-> IF fl = "claims" THEN r.ret ELSE None, obs |-> Obs(fl, r.st)]
   IN /\ st' = r.st
      /\ UNCHANGED fl
      /\ g' = GNext(g, ev)
@@ -437,6 +495,12 @@ Shape ==
          /\ \A a \in IAS : st.rec[a] # None => st.id[a] = None
     [] fl = "modules" ->
          \A h \in MHS : NoDup(st.m[h]) /\ ToSet(st.m[h]) = ModulesOf(g, h)
+    [] fl = "claims" ->
+         /\ \A t \in CTP : NoDup(st.idx[t]) /\ ToSet(st.idx[t]) = {Cid(k[1], k[2]) : k \in LiveOf(g, t)}
+         /\ \A t \in CTP, i \in CIP :
+              LET c == st.cl[Cid(t, i)] IN
+              IF <<t, i>> \in DOMAIN g.C THEN c.ok /\ c.topic = t /\ c.issuer = i /\ c.data = g.C[<<t, i>>].data
+              ELSE c = NoClaim
 
 Refines == QueryOk(g, Obs(fl, st)) /\ EnumOk(g, Obs(fl, st)) /\ Shape
 =============================================================================
